@@ -3,6 +3,7 @@ package main
 import (
 	"go/token"
 	"go/types"
+	"sort"
 	"strings"
 
 	"golang.org/x/tools/go/ssa"
@@ -911,4 +912,92 @@ func (p *Program) xcNilness(xc XCall, v ssa.Value) tri {
 		}
 	}
 	return unknownTri
+}
+
+// ---------------------------------------------------------------------------------------------
+// Guards materialised in an extracted boolean helper (`if r.canReuse(a, b) { … }`).
+
+// xImplied returns fs plus the facts implied by those facts whose condition is the result of an
+// extracted helper (see Program.inlinable) with a single call site and a single boolean result:
+// if the call evaluated to Pol, the helper left through a return that can produce Pol, so the
+// facts common to all such returns hold (for a non-constant result additionally "result == Pol").
+// Parameters of the helper are unified with the arguments by Program.key, so the implied facts
+// can be matched against values of the caller. Same idea as the engine's phiImplied for booleans
+// kept in a variable.
+func (p *Program) xImplied(fs []Fact) []Fact {
+	out := append([]Fact{}, fs...)
+	have := map[string]bool{}
+	for _, f := range out {
+		have[f.key] = true
+	}
+	expanded := map[*ssa.Call]bool{}
+	for i := 0; i < len(out) && i < 400; i++ {
+		f := out[i]
+		call, idx := asCall(f.Cond)
+		if call == nil || idx != -1 || expanded[call] {
+			continue
+		}
+		if _, direct := stripConv(f.Cond).(*ssa.Call); !direct {
+			continue
+		}
+		h := staticCallee(call.Common())
+		if h == nil || !p.inlinable(h) || len(p.callersOf(h)) != 1 || h == call.Parent() {
+			continue
+		}
+		res := h.Signature.Results()
+		if res.Len() != 1 {
+			continue
+		}
+		if bt, isB := res.At(0).Type().Underlying().(*types.Basic); !isB || bt.Info()&types.IsBoolean == 0 {
+			continue
+		}
+		expanded[call] = true
+		var common map[string]Fact
+		for _, rc := range p.returnCases(h) {
+			if h.Recover != nil && rc.Ret.Block() == h.Recover {
+				continue
+			}
+			if len(rc.Results) != 1 || rc.Results[0] == nil {
+				common = map[string]Fact{}
+				break
+			}
+			cand := map[string]Fact{}
+			for _, g := range rc.Facts {
+				cand[g.key] = g
+			}
+			r := rc.Results[0]
+			if cb, isC := constBool(r); isC {
+				if cb != f.Pol {
+					continue // this return cannot have produced the value
+				}
+			} else {
+				g := p.mkFact(r, f.Pol)
+				if _, contradiction := cand[p.mkFact(r, !f.Pol).key]; contradiction {
+					continue
+				}
+				cand[g.key] = g
+			}
+			if common == nil {
+				common = cand
+			} else {
+				for k := range common {
+					if _, ok := cand[k]; !ok {
+						delete(common, k)
+					}
+				}
+			}
+		}
+		keys := make([]string, 0, len(common))
+		for k := range common {
+			keys = append(keys, k)
+		}
+		sort.Strings(keys)
+		for _, k := range keys {
+			if !have[k] {
+				have[k] = true
+				out = append(out, common[k])
+			}
+		}
+	}
+	return out
 }
